@@ -50,6 +50,36 @@ theorem consume_effect (limit consumed amount category : Int) :
   unfold Funcs.gasConsume
   by_cases h : consumed ≥ limit <;> simp [h]
 
+
+/-- a meter never runs backwards on costs that are not negative, accepted or refused -/
+theorem consume_monotone (limit consumed amount category : Int) (ov : Bool) (h : 0 ≤ amount * category) :
+    consumed ≤ (Funcs.gasConsume limit consumed amount category ov).2 := by
+  unfold Funcs.gasConsume
+  cases ov
+  · by_cases hc : consumed ≥ limit
+    · simp [hc]
+    · simp [hc]; omega
+  · simp; omega
+
+/-- once a strict consumption was refused every later strict consumption is refused too (the
+    refusal leaves the meter where it was, and nothing but a new block lowers it): the block is
+    over for metered operations -/
+theorem refusal_is_permanent (limit consumed : Int) (costs : List (Int × Int))
+    (h : (Funcs.gasConsume limit consumed 1 1 false).1 = false) :
+    ∀ c ∈ costs, Funcs.gasConsume limit consumed c.1 c.2 false = (false, consumed) := by
+  intro c _
+  unfold Funcs.gasConsume at h ⊢
+  by_cases hc : consumed ≥ limit
+  · simp [hc]
+  · simp [hc] at h
+
+/-- what `GetLeft` reports is exactly what a strict consumer may still start: it is positive iff
+    the next strict consumption is accepted -/
+theorem left_pos_iff_accepted (limit consumed amount category : Int) :
+    0 < Funcs.gasGetLeft limit consumed ↔ (Funcs.gasConsume limit consumed amount category false).1 = true := by
+  unfold Funcs.gasGetLeft Funcs.gasConsume
+  by_cases hc : consumed ≥ limit <;> simp [hc] <;> omega
+
 example : Funcs.gasConsume 100 99 7 3 false = (true, 120) := by decide
 example : Funcs.gasConsume 100 100 7 3 false = (false, 100) := by decide
 
